@@ -6,6 +6,7 @@ import (
 	"io"
 
 	"github.com/hashicorp/raft"
+	"github.com/hashicorp/raft/zzverif/vsched"
 )
 
 // FSMKind selects the optional FSM interfaces.
@@ -42,6 +43,10 @@ type VFSM struct {
 	hooks     FSMHooks
 	State     []Applied
 	Restores  int
+	// Slow: every application waits for a permit of the environment (a slow, e.g. disk-backed, FSM).
+	Slow    bool
+	Permits int
+	Asked   int
 }
 
 type FSMResp struct {
@@ -50,6 +55,11 @@ type FSMResp struct {
 }
 
 func (f *VFSM) apply(l *raft.Log, batch bool) interface{} {
+	if f.Slow && !vsched.Killed() {
+		f.Asked++
+		n := f.Asked
+		vsched.WaitAlways("fsm-permit", func() bool { return f.Permits >= n })
+	}
 	a := Applied{Index: l.Index, Term: l.Term, Type: uint8(l.Type), Data: string(l.Data)}
 	f.State = append(f.State, a)
 	if f.hooks != nil {
